@@ -51,7 +51,7 @@ PROPS = {
     'C05': {
         'title': 'Embedded log never loses or resurrects records',
         'level': 'proof',
-        'level_text': 'Write side: unbounded deductive proof (Verus/Z3) that every public mutator of EmbeddedWal (append_entry, record_checkpoint, sentinel writers; stats read-only) preserves the representation invariant wf and moves the ghost view pending() = records a scan of the region returns with sequence > checkpoint exactly as the reference list does, for all region sizes, payload sizes and histories (invariant, no bound); rejected appends leave the object unchanged. Functions are extracted verbatim from src/io/wal.rs on every run. Scan side: scan_records itself is proved in Verus (walscan unit, unbounded: a successful scan is exactly the spec scan of the region). Its callers (BOUNDED, Kani, modular): records_after / pending_records / open / open_read_only return exactly the scanned records with sequence above the requested one, in order, payloads untouched, and set sequence / pending_bytes / write_head / checkpoint_sequence from the scan (0, 1, 2 scanned records with symbolic sequences and payload bytes) - verified against the contract of scan_records; write_record and write_zero_header are checked bit-precisely on an in-memory disk for enumerated lengths / positions.',
+        'level_text': 'Write side: unbounded deductive proof (Verus/Z3) that every public mutator of EmbeddedWal (append_entry, record_checkpoint, sentinel writers, and write_record itself; stats read-only) preserves the representation invariant wf and moves the ghost view pending() = records a scan of the region returns with sequence > checkpoint exactly as the reference list does, for all region sizes, payload sizes and histories (invariant, no bound); rejected appends leave the object unchanged. Functions are extracted verbatim from src/io/wal.rs on every run. Scan side: scan_records itself is proved in Verus (walscan unit, unbounded: a successful scan is exactly the spec scan of the region). Its callers (BOUNDED, Kani, modular): records_after / pending_records / open / open_read_only return exactly the scanned records with sequence above the requested one, in order, payloads untouched, and set sequence / pending_bytes / write_head / checkpoint_sequence from the scan (0, 1, 2 scanned records with symbolic sequences and payload bytes) - verified against the contract of scan_records; write_record and write_zero_header are checked bit-precisely on an in-memory disk for enumerated lengths / positions.',
         'level_note': 'Level proof refers to the write-side protocol (the invariant over all histories) and to scan_records (Verus, with four declared expression rewrites); the callers of scan_records (records_after / open) are bounded and modular (Kani, <= 2 records), and one bounded native stand-in covers the converse direction of the scan. Also assumed: File model (A-FILE), blake3 determinism, le-bytes axiom, range preconditions (wal_size <= 2^62, sequence < u64::MAX, payload >= 1 byte). Callers in mutation.rs are not under contract.',
         'technique': 'Verus data-structure invariant + ghost view over the extracted real methods; Kani modular harnesses (callee contract stubs) for the scan side',
         'design_ref': 'DESIGN.md section 3 (C05), Appendix A',
@@ -94,7 +94,7 @@ PROPS = {
                           for h in ('wal_records_after_n0_head0', 'wal_records_after_n1_head49', 'wal_records_after_n2_tail',
                                     'wal_records_after_n2_full', 'wal_scan_error_propagates')},
         'assumptions': [A_FILE, A_HASH, A_LE, A_TRACE, A_ARITH, A_TOOLS, A_KANI_STUBS,
-                        'A-CODEC(write): Verus assumes write_record writes exactly the record image (rec_written); proved on the real function by kani:io::wal::write_record_contract_* for the enumerated payload lengths / positions',
+                        'A-CODEC(write): PROVED in the wal Verus unit: write_record writes exactly the record image (rec_written: sequence, length, checksum of the payload, payload; nothing else changes) for every payload length and position. Three declared statement rewrites (E7r): the `header[a..b].copy_from_slice(&X.to_le_bytes())` / `copy_from_slice(digest.as_bytes())` statements become put_le64 / put_le32 / put_sum with assumed store-little-endian specs (A-LE); those very statements are cross-checked bit-precisely on the real function by kani:io::wal::write_record_contract_* for the enumerated payload lengths / positions',
                         'A-CODEC(scan): PROVED in the walscan Verus unit (unbounded, loop invariant scan_split): a successful scan_records IS the spec scan sp::scan of the region (same records in order, same payload bytes, same end cursor) and succeeds only if the spec scan accepts the region; bytes of the file are not changed; no overflow / out-of-range index; terminates. The extraction applies four declared expression rewrites (E7r, listed in the evidence): the two from_le_bytes(..try_into().map_err(|_| ..)?) header parses become le64_at / le32_at with assumed little-endian specs (A-LE; the map_err branches are dead because the slices have the exact length), usize::try_from(length) becomes `length as usize` (A-ARCH: 64-bit target), and `a != b` on byte slices becomes !bytes_eq(a, b) (slice equality is element-wise). The converse direction (a region the spec scan accepts is not rejected, absent I/O errors) is not expressible because of the `?`/From limit and is covered by the BOUNDED NATIVE STAND-IN native:wal::scan_and_history_enumeration (never counted as proved)',
                         'A-SCANSTUB: records_after / pending_records / open are verified against the contract of scan_records (a stub returning any result the contract allows for 0, 1 or 2 records)',
                         'A-INPLACE: allocator-model artefacts of std in-place collect are excluded for the records_after harnesses (listed in evidence)'],
@@ -106,11 +106,11 @@ PROPS = {
     'C30': {
         'title': 'File-format codecs round-trip and reject malformed input',
         'level': 'model_checking',
-        'level_text': 'Header and commit-footer codecs: complete proofs (Kani/CBMC, loop-free harnesses over ALL header values, ALL 4096-byte images, ALL footer values, ALL 56-byte images, compiled inside the real crate): decode(encode(v)) == v, encode rejects exactly the invalid headers, an accepted image is the canonical encoding of the value returned (so a wrong magic/version/spec/wal_offset/wal_size is rejected and no different value is returned). Time index: BOUNDED (n <= 3 entries, every i64/u64 value): append_track sorts by (timestamp, frame_id), permutes, length = 12+16n, read_track returns exactly those; an arbitrary image of 12+16n bytes with an arbitrary declared length is accepted only with the right magic, length and order, and never panics. read_toc (Verus, unbounded, over the File model): a TOC is returned only if the trailing 56 bytes decode as a footer whose toc_len equals the length of the bytes between header.footer_offset and the footer, whose hash matches those bytes, and which pass verify_toc_prefix - i.e. inconsistent length / checksum fields are rejected on the header-directed read path. TOC: only the decision logic of Toc::verify_checksum is verified (modular, encoders and hash replaced by ghost functions): the stored checksum is accepted iff it is the digest of a zero-checksum encoding in a format that covers every optional field present (current; V2 only without replay_manifest; V1 only without memories_track and replay_manifest). Toc::encode / decode themselves (serde/bincode) are NOT covered.',
-        'level_note': 'Level is model_checking because the time-index part is bounded by the entry count (n <= 3; n <= 2 in the quick tier) and the TOC codec is covered only in the decision logic of verify_checksum (serde-derived bincode visitors over String/BTreeMap are outside both tools). The header/footer parts are complete (no bound). blake3::Hasher is stubbed in the time-index harnesses (the checksum value plays no role in these obligations).',
+        'level_text': 'Header and commit-footer codecs: complete proofs (Kani/CBMC, loop-free harnesses over ALL header values, ALL 4096-byte images, ALL footer values, ALL 56-byte images, compiled inside the real crate): decode(encode(v)) == v, encode rejects exactly the invalid headers, an accepted image is the canonical encoding of the value returned (so a wrong magic/version/spec/wal_offset/wal_size is rejected and no different value is returned). Time index, read side: read_track is PROVED in Verus without bound (timeindex unit; generic reader instantiated with the File model, five declared expression rewrites): Ok(v) only if the magic matches, length >= 12 and length - 12 == 16 * count, and then v holds exactly the count entries the bytes encode, in order, sorted by (timestamp, frame_id) - no truncation, nothing invented; file bytes unchanged; terminates. Time index, write side and round trip: BOUNDED (n <= 3 entries, every i64/u64 value): append_track sorts by (timestamp, frame_id), permutes, length = 12+16n, read_track returns exactly those; an arbitrary image of 12+16n bytes with an arbitrary declared length is accepted only with the right magic, length and order, and never panics. read_toc (Verus, unbounded, over the File model): a TOC is returned only if the trailing 56 bytes decode as a footer whose toc_len equals the length of the bytes between header.footer_offset and the footer, whose hash matches those bytes, and which pass verify_toc_prefix - i.e. inconsistent length / checksum fields are rejected on the header-directed read path. TOC: only the decision logic of Toc::verify_checksum is verified (modular, encoders and hash replaced by ghost functions): the stored checksum is accepted iff it is the digest of a zero-checksum encoding in a format that covers every optional field present (current; V2 only without replay_manifest; V1 only without memories_track and replay_manifest). Toc::encode / decode themselves (serde/bincode) are NOT covered.',
+        'level_note': 'Level is model_checking because the write side of the time index (append_track: sort_by_key closure) is bounded by the entry count (n <= 3; n <= 2 in the quick tier) and the TOC codec is covered only in the decision logic of verify_checksum (serde-derived bincode visitors over String/BTreeMap are outside both tools). The header/footer parts are complete (no bound). blake3::Hasher is stubbed in the time-index harnesses (the checksum value plays no role in these obligations).',
         'technique': 'Kani loop-free full-domain codec harnesses (complete) + bounded Kani harnesses for the time index, inside the real crate',
         'design_ref': 'DESIGN.md section 3 (C30)',
-        'verus': ['readtoc'],
+        'verus': ['readtoc', 'timeindex'],
         'kani': [
             H(HDR, 'header_encode_decode_roundtrip'), H(HDR, 'header_decode_implies_encode'), H(HDR, 'header_clear_legacy_lock'),
             H(FTR, 'footer_roundtrip'), H(FTR, 'footer_decode_implies_encode'), H(FTR, 'footer_decode_rejects_wrong_length'),
@@ -128,8 +128,8 @@ PROPS = {
                         'A-TOCENC: in toc_verify_checksum_decision the three bincode encoders and blake3 are replaced by ghost functions that keep the format tag, a digest of the optional fields the format covers, and whether the checksum field was zeroed (the encoders themselves are not verified)',
                         'std::io::Cursor<Vec<u8>> stands for the file in the time-index harnesses (real std code, not a stub)'],
         'not_covered': ['TOC: Toc::encode / decode (serde-derived bincode with legacy fall-backs, trailing-bytes rejection) - no contract within reach of Verus or CBMC; only the checksum decision logic is covered',
-                        'time index with more than 3 entries (bounded)', 'checksum values (blake3 stubbed)'],
-        'search': {'header|footer': 'codec', 'time_index': 'codec'},
+                        'append_track / round trip with more than 3 entries (bounded; read_track itself is unbounded)', 'checksum values (blake3 stubbed)'],
+        'search': {},
     },
     'C39': {
         'title': 'Sketch term filter has no false negatives; sketch track round-trips',
@@ -138,7 +138,7 @@ PROPS = {
         'level_note': 'Bounded in the number of token hashes. The tokenizer -> compute_token_weights -> hash_token chain (NFKC, HashMap, blake3) that feeds build_term_filter is ASSUMED to hand every produced token hash to build_term_filter (A-TOKCHAIN, unchecked). The whole-track clause (write_sketch_track/read_sketch_track through HashMap<FrameId,_>) is covered only through the entry/header codecs; see not_covered and known_findings.txt.',
         'technique': 'Kani bounded harnesses (filter) + loop-free full-domain codec harnesses (complete) inside the real crate',
         'design_ref': 'DESIGN.md section 3 (C39)',
-        'verus': [],
+        'verus': ['sketchread'],
         'kani': [
             H(SKT, 'filter_no_false_negative_n1', 'quick', 'bounded', '1 hash'), H(SKT, 'filter_no_false_negative_n2', 'quick', 'bounded', '2 hashes'),
             H(SKT, 'filter_no_false_negative_n3', 'quick', 'bounded', '3 hashes'), H(SKT, 'filter_no_false_negative_n4', 'thorough', 'bounded', '4 hashes'),
@@ -153,7 +153,7 @@ PROPS = {
         'assumptions': [A_TOOLS, A_TRACE, 'A-TOKCHAIN: every token produced by the sketch tokenizer reaches build_term_filter as hash_token(token) (unchecked: string tables, HashMap, blake3)',
                         'filter_size_bytes is one of 16/32/64 (SketchVariant::term_filter_size); size 0 would divide by zero and is outside the property'],
         'not_covered': ['tokenize_for_sketch / compute_token_weights / hash_token chain (A-TOKCHAIN)', 'filter built from more than 6 hashes (bounded)'],
-        'search': 'sketch',
+        'search': {},
     },
     'C13': {
         'title': 'Vector search returns the exact nearest neighbours',
@@ -217,6 +217,8 @@ PROPS = {
         'technique': 'Kani function contracts (proof_for_contract + stub_verified, modular) on the real functions; Verus loop invariants for the two char-boundary helpers',
         'design_ref': 'DESIGN.md section 3 (C35)',
         'verus': ['lex'],
+        # the k = 2 / k = 3 instances need up to ~25 GB each: fewer parallel jobs and a higher cap in the thorough tier
+        'jobs': {'thorough': 3}, 'mem_kb': {'thorough': 30 * 1024 * 1024},
         'kani': (
             [H(LEX, '%s_l%d' % (nm, l), 'quick', 'bounded', 'every well-formed UTF-8 text of %d bytes, every usize argument' % l, playback=(nm not in ('prev_boundary_contract', 'next_boundary_contract')))
              for l in (1, 2, 3, 4) for nm in ('prev_boundary_contract', 'next_boundary_contract', 'sentence_start_contract', 'sentence_end_contract', 'advance_contract')] +
@@ -228,7 +230,6 @@ PROPS = {
                 ('snippet_slices_ascii24_k2', 'quick', 'one concrete 24-byte ASCII text, 2 symbolic occurrences (two separate slices reachable)'),
                 ('snippet_slices_l2_k2', 'thorough', '2 bytes, 2 occurrences'),
                 ('snippet_slices_l3_k2', 'thorough', '3 bytes, 2 occurrences'), ('snippet_slices_l4_k2', 'thorough', '4 bytes, 2 occurrences'),
-                ('snippet_slices_l3_k3', 'thorough', '3 bytes, 3 occurrences'),
                 ('snippet_slices_ascii64_k2', 'thorough', 'one concrete 64-byte ASCII text, 2 symbolic occurrences')]]
         ),
         'assumptions': [A_TOOLS, A_TRACE, 'A-STR: str::is_char_boundary(0) and (len) hold and it is false beyond len (std documentation; axioms in the Verus unit, executed bit-precisely under Kani)',
@@ -240,11 +241,11 @@ PROPS = {
     'C22': {
         'title': 'No panic or hang on arbitrary file bytes',
         'level': 'model_checking',
-        'level_text': 'DECODER LAYER ONLY.  Proved without bound (Verus on functions extracted verbatim; overflow, index bounds and termination are proof obligations): find_last_valid_footer on every byte string; locate_footer_window (src/memvid/lifecycle.rs, the window-doubling scan used by open / open_read_only / verify) on every byte string, checked against find_last_valid_footer\'s contract; read_toc (src/memvid/lifecycle.rs, the header-directed TOC read of open / doctor) on every file image and every header over the File model: no underflow in `len - footer_offset` / `buf.len() - FOOTER_SIZE`, no out-of-range slice, and a returned TOC is the decoding of exactly the bytes between footer_offset and the trailing footer whose length, hash and prefix guard were checked.  Proved complete by loop-free Kani harnesses over the full input domain: HeaderCodec::decode on all 4096-byte images, CommitFooter::decode on all 56-byte images and on every wrong length, SketchTrackHeader::from_bytes / SketchEntrySmall::from_bytes on all images.  EmbeddedWal::scan_records on every region image over the File model (Verus walscan unit: no overflow, no out-of-range index, terminates). BOUNDED (Kani): read_track on every image of 12 / 28 bytes with every declared length (entry count and length fields fully symbolic); verify_toc_prefix (the guard in front of the TOC decoder) on every image of 0 / 8 / 23 / 24 / 120 bytes: never panics and accepts exactly the images whose version and counts are within the limits and whose minimum payload fits; Kani checks every panic, arithmetic overflow, slice index, unwrap and allocation-size failure on the explored paths.',
-        'level_note': 'This claim detects regressions in the byte decoders and in the footer window scan; it does NOT cover the layers above them: TOC decode under catch_unwind, index loading, tantivy, recover_toc / doctor / verify logic (1 600 + 1 700 lines of Memvid code) are outside both tools (DESIGN.md section 4, reason W).  read_sketch_track as a whole did not answer within the caps (HashMap) and is covered only through its header/entry decoders.',
+        'level_text': 'DECODER LAYER ONLY.  Proved without bound (Verus on functions extracted verbatim; overflow, index bounds and termination are proof obligations): find_last_valid_footer on every byte string; locate_footer_window (src/memvid/lifecycle.rs, the window-doubling scan used by open / open_read_only / verify) on every byte string, checked against find_last_valid_footer\'s contract; read_toc (src/memvid/lifecycle.rs, the header-directed TOC read of open / doctor) on every file image and every header over the File model: no underflow in `len - footer_offset` / `buf.len() - FOOTER_SIZE`, no out-of-range slice, and a returned TOC is the decoding of exactly the bytes between footer_offset and the trailing footer whose length, hash and prefix guard were checked.  Proved complete by loop-free Kani harnesses over the full input domain: HeaderCodec::decode on all 4096-byte images, CommitFooter::decode on all 56-byte images and on every wrong length, SketchTrackHeader::from_bytes / SketchEntrySmall::from_bytes on all images.  EmbeddedWal::scan_records on every region image over the File model (Verus walscan unit: no overflow, no out-of-range index, terminates); read_track on every file image, offset and declared length (Verus timeindex unit: no arithmetic overflow, terminates; the allocation-size panic class is covered by the Kani harnesses below); read_sketch_track on every file image, offset and declared length (Verus sketchread unit: no arithmetic overflow in the length validation - this obligation found the `entry_count * entry_size` overflow repaired in fix 172834d - the entry loop terminates, the file is not modified). BOUNDED (Kani): read_track on every image of 12 / 28 bytes with every declared length (entry count and length fields fully symbolic); verify_toc_prefix (the guard in front of the TOC decoder) on every image of 0 / 8 / 23 / 24 / 120 bytes: never panics and accepts exactly the images whose version and counts are within the limits and whose minimum payload fits; Kani checks every panic, arithmetic overflow, slice index, unwrap and allocation-size failure on the explored paths.',
+        'level_note': 'This claim detects regressions in the byte decoders and in the footer window scan; it does NOT cover the layers above them: TOC decode under catch_unwind, index loading, tantivy, recover_toc / doctor / verify logic (1 600 + 1 700 lines of Memvid code) are outside both tools (DESIGN.md section 4, reason W).  read_sketch_track is covered for totality by the sketchread Verus unit (the HashMap-backed track and the entry decoders enter as opaque external functions); its round-trip behaviour is not (see C39).',
         'technique': 'Verus totality proofs (bounds, overflow, decreases) on extracted functions + Kani full-domain / bounded decoder harnesses',
         'design_ref': 'DESIGN.md section 3 (C22)',
-        'verus': ['footer', 'lifecycle', 'readtoc', 'walscan'],
+        'verus': ['footer', 'lifecycle', 'readtoc', 'walscan', 'timeindex', 'sketchread'],
         'kani': [
             H(HDR, 'header_decode_implies_encode'), H(FTR, 'footer_decode_implies_encode'), H(FTR, 'footer_decode_rejects_wrong_length'),
             H(SKT, 'sketch_header_rejects_bad_magic'), H(SKT, 'sketch_small_bytes_roundtrip'),
@@ -258,7 +259,7 @@ PROPS = {
                         'locate_footer_window is checked against the CONTRACT of find_last_valid_footer (proved in the footer unit), not its body',
                         A_FILE, 'A-ARCH: 64-bit target (usize is 8 bytes) in the readtoc unit', 'A-TOC: Toc::decode is a function of the bytes (external_body; serde/bincode is not verified)'],
         'not_covered': ['Toc::decode / verify_checksum, recover_toc, scan_range_for_toc, index loading, tantivy, doctor, verify: everything above the byte decoders',
-                        'read_sketch_track as a whole (HashMap-backed track: no answer within the caps)', 'hangs other than in the two Verus-proved loops'],
+                        'what read_sketch_track returns (HashMap-backed track: only totality is proved)', 'hangs other than in the Verus-proved loops'],
         'search': {'footer|lifecycle': 'footer'},
     },
 }
